@@ -59,12 +59,14 @@ type Contract struct {
 	GhostExit    []*GhostAssign
 	GhostPre     []*GhostAssign
 	Uses         []string
-	Assumes      []*Clause     // "assume[label] E": assumed when the body is verified, NOT checked at call sites (listed in evidence)
-	AtCall       []atCallGhost // "at-call <callee-key> lhs := rhs": ghost assignment executed just before matching calls
-	Recv         []*chanClause // "recv v assume E": every channel receive yields a value v satisfying E
-	Send         []*chanClause // "send v assert E": every channel send of value v must satisfy E (obligation)
-	Forced       []forcedUse   // "use! a b for <substring of obligation kind>"
-	Params       []Param       // only for callbacks / stdlib contracts that rename params
+	Mode         string               // "" (sequential) | "step" (thread-modular: interference between atomic steps)
+	Atomics      map[int][]*atomicAnn // annotations of the k-th sync/atomic call (source order): ghost updates and asserts
+	Assumes      []*Clause            // "assume[label] E": assumed when the body is verified, NOT checked at call sites (listed in evidence)
+	AtCall       []atCallGhost        // "at-call <callee-key> lhs := rhs": ghost assignment executed just before matching calls
+	Recv         []*chanClause        // "recv v assume E": every channel receive yields a value v satisfying E
+	Send         []*chanClause        // "send v assert E": every channel send of value v must satisfy E (obligation)
+	Forced       []forcedUse          // "use! a b for <substring of obligation kind>"
+	Params       []Param              // only for callbacks / stdlib contracts that rename params
 	Results      []Param
 	File         string
 	Line         int
@@ -72,6 +74,26 @@ type Contract struct {
 	NoPanic      bool
 	Notes        []string
 	Asserts      map[string][]*Clause // "call:<callee>#k" -> assumptions at call sites (assume-contract)
+}
+
+type atomicAnn struct {
+	GA     *GhostAssign // ghost update executed right after the atomic operation ("ret" names its result)
+	Assert *Clause      // obligation checked right after the ghost updates of this step
+	Pre    *Clause      // obligation checked just before the step (after interference)
+}
+
+// StepSpec: package-level declarations of the thread-modular mode.
+type StepSpec struct {
+	Shared []*Expr   // heap designators (same forms as modifies): state other threads may change
+	Invs   []*Clause // global invariants: hold between atomic steps
+	Relies []*Clause // two-state relations satisfied by every step of another thread (old = before)
+	Locks  []*lockSpec
+}
+
+type lockSpec struct {
+	Kind     string // "mutex" | "trylock"
+	Field    string // pkg.T.f (try-lock flag) or pkg.T (embedded sync.Mutex)
+	Protects []*Expr
 }
 
 type atCallGhost struct {
@@ -116,6 +138,7 @@ type GhostField struct {
 }
 
 type ContractDB struct {
+	Steps     map[string]*StepSpec // by package name
 	Funcs     map[string]*Contract
 	Callbacks map[string]*Contract // "field:pkg.T.f" or "type:pkg.T"
 	Pures     map[string]*PureFn
@@ -127,11 +150,11 @@ type ContractDB struct {
 
 func NewContractDB() *ContractDB {
 	return &ContractDB{Funcs: map[string]*Contract{}, Callbacks: map[string]*Contract{}, Pures: map[string]*PureFn{},
-		Axioms: map[string]*Axiom{}, Ghosts: map[string]*GhostField{}}
+		Axioms: map[string]*Axiom{}, Ghosts: map[string]*GhostField{}, Steps: map[string]*StepSpec{}}
 }
 
 var clauseKeywords = map[string]bool{"func": true, "props": true, "trusted": true, "inline": true, "noinline": true, "pure-call": true,
-	"requires": true, "ensures": true, "modifies": true, "assume": true, "use!": true, "at-call": true, "recv": true, "send": true, "loop": true, "ghost-exit": true, "ghost-pre": true, "use": true, "ghost": true,
+	"requires": true, "ensures": true, "modifies": true, "assume": true, "mode": true, "atomic": true, "shared": true, "inv": true, "rely": true, "lock": true, "use!": true, "at-call": true, "recv": true, "send": true, "loop": true, "ghost-exit": true, "ghost-pre": true, "use": true, "ghost": true,
 	"pure": true, "ufun": true, "axiom": true, "lemma": true, "callback-field": true, "callback-type": true,
 	"bounded": true, "nopanic": true, "note": true, "end": true, "params": true, "results": true}
 
@@ -367,7 +390,13 @@ func (db *ContractDB) LoadFile(path string, raw bool) error {
 		case "func", "callback-field", "callback-type":
 			cur = &Contract{Pkg: pkg, File: l.file, Line: l.line, Loops: map[int]*LoopSpec{}, Asserts: map[string][]*Clause{}}
 			if l.kw == "func" {
-				cur.Name = qual(strings.TrimSpace(l.rest))
+				nm := strings.TrimSpace(l.rest)
+				variant := ""
+				if i := strings.Index(nm, " @"); i >= 0 {
+					variant = "@" + strings.TrimSpace(nm[i+2:])
+					nm = strings.TrimSpace(nm[:i])
+				}
+				cur.Name = qual(nm) + variant
 				if _, dup := db.Funcs[cur.Name]; dup {
 					db.errf(l, "duplicate contract for %s", cur.Name)
 				}
@@ -453,6 +482,57 @@ func (db *ContractDB) LoadFile(path string, raw bool) error {
 			}
 			pf.Ret = rt
 			db.Pures[name] = pf
+		case "shared", "inv", "rely", "lock":
+			sp := db.Steps[pkg]
+			if sp == nil {
+				sp = &StepSpec{}
+				db.Steps[pkg] = sp
+			}
+			switch l.kw {
+			case "shared":
+				for _, item := range splitTop(l.rest) {
+					e, err := ParseSpec(item)
+					if err != nil {
+						db.errf(l, "%v", err)
+						continue
+					}
+					sp.Shared = append(sp.Shared, e)
+				}
+			case "inv", "rely":
+				i := strings.Index(l.rest, ":")
+				if i < 0 {
+					db.errf(l, "expected: %s name: expr", l.kw)
+					continue
+				}
+				e, err := ParseSpec(l.rest[i+1:])
+				if err != nil {
+					db.errf(l, "%v", err)
+					continue
+				}
+				c := &Clause{Label: strings.TrimSpace(l.rest[:i]), Src: strings.TrimSpace(l.rest[i+1:]), E: e, File: l.file, Line: l.line}
+				if l.kw == "inv" {
+					sp.Invs = append(sp.Invs, c)
+				} else {
+					sp.Relies = append(sp.Relies, c)
+				}
+			case "lock":
+				// lock mutex T protects a, b | lock trylock T.f protects a, b
+				f := strings.SplitN(l.rest, " ", 4)
+				if len(f) < 4 || f[2] != "protects" {
+					db.errf(l, "expected: lock mutex|trylock T[.f] protects items")
+					continue
+				}
+				ls := &lockSpec{Kind: f[0], Field: pkg + "." + f[1]}
+				for _, item := range splitTop(f[3]) {
+					e, err := ParseSpec(item)
+					if err != nil {
+						db.errf(l, "%v", err)
+						continue
+					}
+					ls.Protects = append(ls.Protects, e)
+				}
+				sp.Locks = append(sp.Locks, ls)
+			}
 		case "axiom", "lemma":
 			i := strings.Index(l.rest, ":")
 			if i < 0 {
@@ -565,6 +645,51 @@ func (db *ContractDB) LoadFile(path string, raw bool) error {
 			case "assume":
 				if c := mkClause(l); c != nil {
 					cur.Assumes = append(cur.Assumes, c)
+				}
+			case "mode":
+				cur.Mode = strings.TrimSpace(l.rest)
+			case "atomic":
+				// atomic k ghost lhs := rhs | atomic k assert[label] E | atomic k pre[label] E
+				f := strings.SplitN(l.rest, " ", 3)
+				if len(f) < 3 {
+					db.errf(l, "expected: atomic k ghost|assert|pre ...")
+					continue
+				}
+				k, err := strconv.Atoi(f[0])
+				if err != nil {
+					db.errf(l, "bad atomic ordinal %q", f[0])
+					continue
+				}
+				if cur.Atomics == nil {
+					cur.Atomics = map[int][]*atomicAnn{}
+				}
+				kw2, rest := f[1], f[2]
+				for _, pre := range []string{"assert", "pre"} {
+					if strings.HasPrefix(kw2, pre+"[") {
+						rest = kw2[len(pre):] + " " + rest
+						kw2 = pre
+					}
+				}
+				l2 := l
+				l2.rest = rest
+				switch kw2 {
+				case "ghost":
+					ga, err := parseGhostAssign(rest)
+					if err != nil {
+						db.errf(l, "%v", err)
+						continue
+					}
+					cur.Atomics[k] = append(cur.Atomics[k], &atomicAnn{GA: ga})
+				case "assert":
+					if c := mkClause(l2); c != nil {
+						cur.Atomics[k] = append(cur.Atomics[k], &atomicAnn{Assert: c})
+					}
+				case "pre":
+					if c := mkClause(l2); c != nil {
+						cur.Atomics[k] = append(cur.Atomics[k], &atomicAnn{Pre: c})
+					}
+				default:
+					db.errf(l, "unknown atomic clause %q", kw2)
 				}
 			case "modifies":
 				if strings.TrimSpace(l.rest) == "*" {
